@@ -18,6 +18,7 @@ def main(argv=None):
     a = ap.parse_args(argv)
     seed = int(os.environ.get("VERIF_SEED", "0") or 0)
     pid = a.pid.upper()
+    import hv.symx.core  # noqa: F401  (first: puts the tree under verification - /repo, or HV_REPO - on sys.path before any `import hy`)
     try:
         mod = importlib.import_module(f"hv.props.{pid.lower()}")
     except ModuleNotFoundError as e:
